@@ -2520,6 +2520,7 @@ func specTellable(m LogWriter) bool {
 
 
 
+
 // ---- generated by /verif/tools/gen_auto.py: synthesized contracts for the no-panic sweep of printImpl's call tree
 //@ func convertLevelToLogSlog
 //@   props C02
@@ -2537,15 +2538,7 @@ func specTellable(m LogWriter) bool {
 //@   props C02
 //@   auto
 
-//@ func (*PrintCtx).appendTime
-//@   props C02
-//@   auto
-
 //@ func (*PrintCtx).appendDurationSlice
-//@   props C02
-//@   auto
-
-//@ func (*PrintCtx).appendTimeSlice
 //@   props C02
 //@   auto
 
